@@ -311,7 +311,7 @@ int __wrap_pthread_join(pthread_t th, void **ret) {
 }
 int __wrap_pthread_mutex_init(pthread_mutex_t *m, const pthread_mutexattr_t *a) {
     int r = __real_pthread_mutex_init(m, a);
-    if (g_on) { obj_get(m, O_MUTEX, 1); st.mutexes_created++; }
+    if (g_on) { int reinit = obj_find(m, O_MUTEX) != NULL; obj_get(m, O_MUTEX, 1); if (!reinit) st.mutexes_created++; /* re-initialising a live mutex object is one object, not two */ }
     return r;
 }
 int __wrap_pthread_mutex_destroy(pthread_mutex_t *m) {
